@@ -249,6 +249,20 @@ def _hyp():
     )
 
 
+_bf = st.sampled_from(["\u00bf", "\u00ff", "\u043f", "\u03bf", "\u77bf", "\uffff", "\U0010ffff", "y", "z", " ", "\u20ac"])   # UTF-8 forms ending in / containing 0xBF, 0xBE ...
+
+
+@st.composite
+def very_long_line(draw):
+    """lines of several thousand characters (a size-gated fast path must fold like the normal path)"""
+    runs = draw(st.lists(st.tuples(st.one_of(_bf, _mixed), st.integers(1, 700)), min_size=3, max_size=9))
+    chars = "".join(c * k for c, k in runs)
+    period = draw(st.integers(2, 9))
+    inter = draw(_bf)
+    s = "".join(ch + (inter if i % period == 0 else "") for i, ch in enumerate(chars[:6000]))
+    return {"kind": "line", "s": _lead("DESCRIPTION:" + s)}
+
+
 def streams(tier):
     n = 1200 if tier == "quick" else 40000
     return [
@@ -257,6 +271,7 @@ def streams(tier):
         Stream("width-class-edges", "enum", 80 * len(EDGE_CHARS), 4, _edge_sweep, True, True),
         Stream("ascii-lengths", "enum", 401 * 4, 2, _ascii, True, False),
         Stream("mixed-lines", "hyp", n, 16, _hyp),
+        Stream("very-long-lines", "hyp", max(20, n // 40), 8, very_long_line),
     ]
 
 
